@@ -8,6 +8,7 @@
 mod common;
 mod dispatch;
 mod validators;
+mod layouts;
 
 use std::path::PathBuf;
 
@@ -36,6 +37,7 @@ fn main() {
     };
     run("dispatch", &dispatch::run);
     run("validators", &validators::run);
+    run("layouts", &layouts::run);
     if failed {
         std::process::exit(2);
     }
